@@ -11,7 +11,7 @@ MODULE, PKG, BIN = "arc/go", "./verifh/c19", "c19"
 COQ_IMPORTS = ("From Synnax Require Import Common.Base Arc.Syntax Arc.Spec Arc.Wasm Arc.Compile Arc.Guard "
                "Arc.FloatExec Monitors.Mon_C19.")
 CASE_TYPE = "case_t"
-COUNTS = {"quick": 700, "thorough": 30000}
+COUNTS = {"quick": 700, "thorough": 12000}
 SHARD = 60
 OPS_KEY = "args"
 HARNESS_TIMEOUT = 600
@@ -22,7 +22,7 @@ BITS = {"i8": 8, "i16": 16, "i32": 32, "i64": 64, "u8": 8, "u16": 16, "u32": 32,
 TYPE_W = [("i64", 18), ("i32", 18), ("u32", 12), ("u64", 12), ("i8", 6), ("i16", 6), ("u8", 9), ("u16", 5),
           ("f64", 9), ("f32", 5)]
 KNOWN_TAGS = {1: "unary_minus_over_pow", 2: "literal_hint_leak", 3: "float_modulo_not_implemented",
-              4: "if_condition_not_i32", 5: "u64_literal_above_i64_max", 6: "narrow_int_arith_overflow",
+ 6: "narrow_int_arith_overflow",
               7: "signed_div_overflow", 8: "same_register_cast", 9: "sign_change_cast_out_of_range",
               10: "float_to_int_out_of_range", 11: "u64_pow_exponent_above_i63"}
 STAGES = {"ok": 0, "parse": 1, "analyze": 2, "compile": 3, "validate": 4, "instantiate": 5, "nofunc": 6}
@@ -121,8 +121,6 @@ def mk_lit(rng, t):
         v = rng.choice([0, 1, 2, 3, 5, 7, 10, 100, 127, 128, 255, 256, 1000, 32767, 65535, mx, mx - 1, mx // 2 + 1,
                         rng.randrange(0, 50), rng.randrange(0, mx + 1)])
         v = min(v, mx)
-        if t == "u64" and v > (1 << 63) - 1 and rng.random() < 0.9:
-            v = (1 << 63) - 1
         return {"k": "lit", "t": t, "v": v, "ty": t}
     txt = rng.choice(FLIT)
     return {"k": "litf", "t": t, "text": txt, "bits": fbits(t, float(txt)), "ty": t}
@@ -141,8 +139,10 @@ def anchored(e):
         return True
     if k in ("paren", "neg"):
         return anchored(e["e"])
-    if k in ("pow", "arith"):
+    if k == "arith":
         return anchored(e["a"]) or anchored(e["b"])
+    if k == "pow":
+        return anchored(e["a"])       # the analyzer does not unify base and exponent
     return False
 
 
@@ -152,22 +152,26 @@ def lits_of(e, acc):
         acc.append(e)
     elif k in ("paren", "neg"):
         lits_of(e["e"], acc)
-    elif k in ("pow", "arith"):
+    elif k == "arith":
         lits_of(e["a"], acc)
         lits_of(e["b"], acc)
+    elif k == "pow":
+        lits_of(e["a"], acc)
     return acc
 
 
-def anchor(e):
+def anchor(e, other=None):
     """for positions where nothing else fixes the type: an unanchored literal-only expression is
     typed i64 (integer literals) / f64 (float literals) by the analyzer; if e is meant to have
-    another type, fix it with an explicit cast on its first literal"""
+    another type, fix it with an explicit cast on its first literal. [other]: an unanchored
+    expression unified with e (the other operand of a comparison)."""
     if anchored(e):
         return e
     ls = lits_of(e, [])
-    if e["ty"] == "i64" and all(l["k"] == "lit" for l in ls):
+    al = ls + (lits_of(other, []) if other is not None else [])
+    if e["ty"] == "i64" and all(l["k"] == "lit" for l in al):
         return e
-    if e["ty"] == "f64" and all(l["k"] == "litf" and "." in l["text"] for l in ls):
+    if e["ty"] == "f64" and all(l["k"] == "litf" and "." in l["text"] for l in al):
         return e
     lit = ls[0]
     inner = dict(lit)
@@ -231,23 +235,58 @@ class Gen:
         x = rng.random()
         if vs and x < 0.62:
             return {"k": "var", "i": rng.choice(vs), "ty": t}
-        if x < 0.80 and scope:
+        if x < 0.74 and scope:
             # cast of a variable of another type
             i = rng.choice(scope)
             if self.tys[i] != t:
                 return {"k": "cast", "t": t, "e": {"k": "var", "i": i, "ty": self.tys[i]}, "ty": t}
         return mk_lit(rng, t)
 
+    def cast_src(self, t):
+        """source type of a cast to t: mostly the same signedness / kind (sign-changing and
+        float->int casts carry known divergences on out-of-range values)"""
+        rng = self.rng
+        if rng.random() < 0.55:
+            same = [u for u, _ in TYPE_W if u != t and is_int(u) == is_int(t) and (not is_int(t) or signed(u) == signed(t))]
+            if same:
+                return rng.choice(same)
+        return wchoice(rng, TYPE_W)
+
+    def bool_expr(self, depth, scope):
+        rng = self.rng
+        x = rng.random()
+        if depth <= 0 or x < 0.10:
+            return self.leaf("u8", scope)
+        if x < 0.70:
+            t2 = wchoice(rng, TYPE_W)
+            a = self.expr(t2, depth - 1, scope)
+            b = self.expr(t2, depth - 1, scope)
+            if not anchored(b):
+                a = anchor(a, b)
+            op = rng.choice(["==", "!=", "<", ">", "<=", ">="])
+            return {"k": "cmp", "op": op, "a": fit(a, 4, rng), "b": fit(b, 4, rng), "ty": "u8"}
+        if x < 0.92:
+            k = rng.choice(["and", "or"])
+            a = anchor(self.bool_expr(depth - 1, scope))
+            b = anchor(self.bool_expr(depth - 1, scope))
+            return {"k": k, "a": fit(a, 5, rng, also=k), "b": fit(b, 5, rng), "ty": "u8"}
+        a = anchor(self.bool_expr(depth - 1, scope))
+        if a["k"] == "pow":
+            a = paren(a)
+        return {"k": "not", "e": fit(a, 2, rng), "ty": "u8"}
+
     def expr(self, t, depth, scope):
         rng = self.rng
         if depth <= 0 or rng.random() < 0.18:
             return self.leaf(t, scope)
-        opts = [("arith", 42), ("neg", 6), ("cast", 14), ("pow", 4), ("leaf", 8)]
+        opts = [("arith", 46), ("neg", 6), ("cast", 10), ("pow", 4), ("leaf", 10)]
         if t == "u8":
-            opts += [("cmp", 40), ("and", 12), ("or", 12), ("not", 10)]
+            opts += [("bool", 60)]
         k = wchoice(rng, opts)
         if k == "leaf":
             return self.leaf(t, scope)
+        if k == "bool":
+            return self.bool_expr(depth, scope)
         if k == "arith":
             ops = "+-*/%" if is_int(t) else "+-*/"
             if not is_int(t) and rng.random() < 0.02:
@@ -283,7 +322,7 @@ class Gen:
             a = self.expr(t2, depth - 1, scope)
             b = self.expr(t2, depth - 1, scope)
             if not anchored(b):
-                a = anchor(a)
+                a = anchor(a, b)
             op = rng.choice(["==", "!=", "<", ">", "<=", ">="])
             return {"k": "cmp", "op": op, "a": fit(a, 4, rng), "b": fit(b, 4, rng), "ty": "u8"}
         if k in ("and", "or"):
@@ -291,7 +330,7 @@ class Gen:
             b = anchor(self.expr("u8", depth - 1, scope))
             return {"k": k, "a": fit(a, 5, rng, also=k), "b": fit(b, 5, rng), "ty": "u8"}
         # cast
-        t2 = wchoice(rng, TYPE_W)
+        t2 = self.cast_src(t)
         a = self.expr(t2, depth - 1, scope)
         return {"k": "cast", "t": t, "e": a, "ty": t}
 
@@ -305,7 +344,7 @@ class Gen:
         x = rng.random()
         if x < 0.85:
             t = "u8"
-        elif x < 0.85 + 0.03 * self.known_rate:
+        elif x < 0.92:
             t = rng.choice(["i64", "u64"])
         else:
             t = rng.choice(["i32", "u32", "i8", "u16"])
@@ -362,7 +401,7 @@ class Gen:
 def gen_prog(rng, known_rate=1.0):
     np_ = rng.choice([1, 2, 2, 2, 3])
     params = [wchoice(rng, TYPE_W) for _ in range(np_)]
-    if rng.random() < 0.45:
+    if rng.random() < 0.55:
         params = [params[0]] * np_
     ret = wchoice(rng, TYPE_W) if rng.random() < 0.6 else params[0]
     g = Gen(rng, params, known_rate)
@@ -824,6 +863,21 @@ def extra(ctx):
             cur = by_tag.get(t)
             if cur is None or len(items[cur][0]["src"]) > len(case["src"]):
                 by_tag[t] = i
+    try:
+        tot = unf = 0
+        for k in range(0, len(terms), 200):
+            out = coq_print(PID + "c%d" % os.getpid(), COQ_IMPORTS,
+                            "Definition RC := Eval vm_compute in run_counts [%s].\nPrint RC." % "; ".join(terms[k:k + 200]),
+                            timeout=900)
+            import re as _re
+            m = _re.search(r"RC\s*=\s*\((\d+)%N,\s*(\d+)%N\)", out.replace("\n", " "))
+            if m:
+                tot += int(m.group(1))
+                unf += int(m.group(2))
+        ctx.extra_cov["calls_compared_with_spec"] = tot
+        ctx.extra_cov["calls_outside_every_signature"] = unf
+    except Exception as exn:  # noqa
+        ctx.notes.append("run_counts failed: %r" % exn)
     ctx.extra_cov["cases_carrying_known_divergence"] = counts
     ctx.extra_cov["cases_outside_every_signature"] = len(items) - len(VF)
     for i in unexplained[:3]:
@@ -855,9 +909,11 @@ ASSUMES = ["spec.md readings stated at the top of coq/theories/Arc/Spec.v (trunc
            "float operations are parameters shared by source and WebAssembly semantics; math.pow on floats and "
            "float % are not evaluated"]
 PARTIAL = ("clause 'source the analyzer rejects produces diagnostics, never a crash' is observed on a generated "
-           "stream of token soup, damaged programs and byte noise, not proved; series, strings, channels, units, "
-           "flows, sequences, function calls, multi-output functions, loops and stateful variables are outside "
-           "the modelled fragment")
+           "stream of token soup, damaged programs and byte noise, not proved. Outside the modelled fragment: loops "
+           "(spec.md defines none: 'No loops'; the compiler's for-loops are not modelled), stateful variables ($=), "
+           "function calls, multi-output functions, series, strings, channels, units, flows and sequences. The "
+           "theorem excludes the nine signatures of coq/theories/Arc/Guard.v (known findings F13a-F13k), each with a "
+           "proved witness that the compiler diverges from spec.md there.")
 READY = True
 TECHNIQUE = ("Coq proof of compiler correctness (simulation by induction on expressions/statements) over a Gallina "
              "copy of the compiler's lowering + byte-exact and value-exact model/impl correspondence")
@@ -869,14 +925,14 @@ LEVEL_TEXT = ("Machine-checked Coq theorem C19_compile_correct_partial: for ever
               "under a semantics of the emitted WebAssembly subset (integers mod 2^32/2^64, traps, host math.pow), "
               "returns the register image of the value defined by a reference semantics written from spec.md, and "
               "traps exactly on the spec's runtime errors - provided neither the program nor the call carries one of "
-              "eleven decidable signatures; each signature has a proved witness (C19_..._refuted) that the compiled code "
+              "nine decidable signatures; each signature has a proved witness (C19_..._refuted) that the compiled code "
               "really diverges from spec.md there. The model is tied to /repo on every run: for generated programs the "
               "emitted code-section entry must equal the model's encoding byte for byte, wazero's validation verdict and "
               "results on boundary arguments (floats by bit pattern, via Coq's SpecFloat) must equal the model's, and a "
               "decidable monitor compares the implementation's results with the spec semantics.")
-LEVEL_NOTE = ("PARTIAL: the no-crash clause is observed on a fuzz stream, not proved; eleven spec/compiler divergences are "
+LEVEL_NOTE = ("PARTIAL: the no-crash clause is observed on a fuzz stream, not proved; nine spec/compiler divergences are "
               "known findings (one tag each; the theorem's guard is exactly their complement); loops, stateful variables, "
-              "calls, series, strings, channels, units, flows are not modelled; validation of the emitted code is "
-              "checked per case (model validator vs wazero), not proved for all programs. Trusted: Coq kernel/vm_compute, "
+              "calls, series, strings, channels, units, flows are not modelled; validation is proved for the model's "
+              "validator (C19_validates_partial) and compared with wazero's verdict per case; instantiation is observed. Trusted: Coq kernel/vm_compute, "
               "the hand-written model (tied by byte/value correspondence), the harness, the generator, the readings of "
               "spec.md listed in Arc/Spec.v. All theorems closed under the global context.")
